@@ -496,6 +496,9 @@ def _isclose(it, a, k):
 
 def install(interp):
     H = interp.ext_handlers
+    from . import ndarr as _nd
+
+    H["np.eye"] = lambda it, a, k: _nd._x_eye(a, k)
     H["math.isclose"] = _isclose
     H["np.isclose"] = _isclose
     for n in ("exp", "sin", "cos", "tanh", "sinh", "cosh", "sqrt", "abs", "square", "sign", "floor", "ceil", "round", "expm1", "log", "log1p", "arctan", "tan", "rint", "arcsin", "arccos", "log10", "log2"):
